@@ -85,6 +85,14 @@ func devCmd(args []string) {
 			groups = append(groups, r.Obligs)
 		}
 		if !*nofam {
+			for _, sc := range fi.Contract.Scenarios {
+				if *fam != "" && sc.Name != *fam {
+					continue
+				}
+				r := u.verifyScenario(fi, sc)
+				fmt.Printf("%s: scenario %s: %d paths, %d obligations, untranslatable: %v\n", key, sc.Name, r.Paths, len(r.Obligs), r.Untrans)
+				groups = append(groups, r.Obligs)
+			}
 			for _, f := range fi.Contract.Families {
 				if *fam != "" && f.Name != *fam {
 					continue
